@@ -93,6 +93,23 @@ macro_rules! env_stubbed_proof {
         #[kani::stub(chrono::Local::now, crate::verif_kani::common::stub_local_now)]
         #[kani::stub(<chrono::Local as chrono::TimeZone>::offset_from_local_datetime, crate::verif_kani::common::stub_offset_from_local_datetime)]
         #[kani::stub(<chrono::Local as chrono::TimeZone>::offset_from_utc_datetime, crate::verif_kani::common::stub_offset_from_utc_datetime)]
+        #[kani::stub(<crate::model::Value as std::clone::Clone>::clone, crate::verif_kani::common::stub_value_clone_scalar)]
+        #[kani::stub(alloc::fmt::format, crate::verif_kani::common::stub_format)]
+        #[kani::stub(<crate::model::Value as std::fmt::Display>::fmt, crate::verif_kani::common::stub_value_display)]
+        #[kani::stub(chrono::NaiveDateTime::parse_from_str, crate::verif_kani::common::stub_naive_parse_from_str)]
+        $(#[$m])*
+        fn $name() $body
+    };
+}
+
+macro_rules! env_stubbed_array_proof {
+    ($(#[$m:meta])* fn $name:ident() $body:block) => {
+        #[kani::proof]
+        #[kani::stub(regex::Regex::new, crate::verif_kani::common::stub_regex_new)]
+        #[kani::stub(chrono::Local::now, crate::verif_kani::common::stub_local_now)]
+        #[kani::stub(<chrono::Local as chrono::TimeZone>::offset_from_local_datetime, crate::verif_kani::common::stub_offset_from_local_datetime)]
+        #[kani::stub(<chrono::Local as chrono::TimeZone>::offset_from_utc_datetime, crate::verif_kani::common::stub_offset_from_utc_datetime)]
+        #[kani::stub(<crate::model::Value as std::clone::Clone>::clone, crate::verif_kani::common::stub_value_clone_array1)]
         #[kani::stub(alloc::fmt::format, crate::verif_kani::common::stub_format)]
         #[kani::stub(<crate::model::Value as std::fmt::Display>::fmt, crate::verif_kani::common::stub_value_display)]
         #[kani::stub(chrono::NaiveDateTime::parse_from_str, crate::verif_kani::common::stub_naive_parse_from_str)]
@@ -557,7 +574,7 @@ case_harness!(c03_case_int, V_INT);
 // Array subscripts are 1-based; every subscript outside the array (any i64) yields NULL.
 macro_rules! subscript_harness {
     ($name:ident, $len:expr) => {
-        env_stubbed_proof! {
+        env_stubbed_array_proof! {
             #[kani::unwind(2)]
             fn $name() {
                 let e0: i64 = kani::any();
@@ -585,7 +602,7 @@ subscript_harness!(c03_subscript_len1, 1);
 
 macro_rules! subscript_type_harness {
     ($name:ident, $tarr:expr, $tidx:expr) => {
-        env_stubbed_proof! {
+        env_stubbed_array_proof! {
             #[kani::unwind(2)]
             fn $name() {
                 // $tarr == V_ARRAY: a real one-element array and an index of the wrong type; otherwise a non-array
@@ -723,6 +740,7 @@ macro_rules! distinct_harness {
         #[kani::proof]
         #[kani::unwind(4)]
         #[kani::stub(alloc::fmt::format, crate::verif_kani::common::stub_format)]
+        #[kani::stub(<crate::model::Value as std::clone::Clone>::clone, crate::verif_kani::common::stub_value_clone_scalar)]
         fn $name() {
             // three tuples of $cols columns; every column NULL or an INT in 0..3 (so that collisions are likely)
             let n: [bool; 6] = [kani::any(), kani::any(), kani::any(), kani::any(), kani::any(), kani::any()];
